@@ -114,4 +114,455 @@ theorem den_call_lit {P c w n a va r} (ha : Den P c w a (.ok va)) (h : Den P c w
   | callRaise h1 hb => cases h1; exact .callRaise ha hb
   | callRet h1 hb he => cases h1; exact .callRet ha hb he
 
+/-! ### hypotheses on programs, and the invariant -/
+
+/-- registry `c` holds every task hash of `u` -/
+def Agree (c : Code) (u : List TH) : Prop := ∀ h ∈ u, c.ver h.name = h.ver
+
+theorem current_iff {c : Code} {s : List TH} : c.current s = true ↔ Agree c s := by
+  simp [Code.current, Agree, List.all_eq_true]
+
+def CatchFree : Expr → Prop
+  | .lit _ => True
+  | .add a b => CatchFree a ∧ CatchFree b
+  | .call _ a => CatchFree a
+  | .catch _ _ _ => False
+
+/-- task functions that observe nothing but their argument (no `File(path)` stat, no task object) -/
+def WorldFree (P : Prog) : Prop := ∀ h a w w', P.body h a w = P.body h a w'
+
+/-- whatever a task function observed of the world is visible to `is_valid` in what it returned: if the
+returned expression is still valid in another world, the function returns the same there -/
+def BodyOk (V : Variant) (P : Prog) : Prop :=
+  ∀ h a w w' e, P.body h a w = .ret e → validE V w' e = true → P.body h a w' = .ret e
+
+/-- `catch` caches privately only in programs without `catch` -/
+def CF (V : Variant) (e : Expr) : Prop := V.noCatchCache = true ∨ CatchFree e
+def CFP (V : Variant) (P : Prog) : Prop := V.noCatchCache = true ∨ ∀ h a w e, P.body h a w = .ret e → CatchFree e
+
+/-- the recorded subtree task set `u` is complete: under *any* registry holding those task hashes the
+expression means the same (only claimed for programs that do not observe the world) -/
+def UClaim (P : Prog) (e : Expr) (r : Res) (u : List TH) : Prop :=
+  WorldFree P → ∀ c' w', Agree c' u → Den P c' w' e r
+
+/-- `CacheSound`: what every table of the backend promises.
+* Evaluation: the entry keyed by (task hash, argument) is what the body with that hash returns on that
+  argument in every world in which the entry is still valid;
+* CallNode + CallSubtreeTask: a successful node's result is the meaning of the call under every registry
+  that holds the node's subtree tasks;
+* the CSE view of the running execution: results of calls under the current registry. -/
+structure Inv (V : Variant) (P : Prog) (c : Code) (w : World) (st : St) : Prop where
+  evals : ∀ k e, (k, e) ∈ st.evals → ∀ w', validE V w' e = true → P.body k.1 k.2 w' = .ret e
+  nodes : ∀ nd ∈ st.nodes, ∀ v, nd.res = .ok v → UClaim P (.call nd.key.1.name (.lit nd.key.2)) (.ok v) nd.sub
+  cse : ∀ k r sub, (k, r, sub) ∈ st.cse →
+    k.1 = c.th k.1.name ∧ Den P c w (.call k.1.name (.lit k.2)) r ∧ UClaim P (.call k.1.name (.lit k.2)) r sub
+
+theorem inv_empty (V P c w) : Inv V P c w {} := ⟨by simp, by simp, by simp⟩
+
+theorem inv_newExec {V P c w c' w' st} (h : Inv V P c w st) : Inv V P c' w' st.newExec :=
+  ⟨h.evals, h.nodes, by simp [St.newExec]⟩
+
+/-- what one evaluation step has to deliver -/
+def EvOk (V : Variant) (P : Prog) (c : Code) (w : World) (ev : St → Expr → R) : Prop :=
+  ∀ st e st' r u, Inv V P c w st → CF V e → ev st e = some (st', r, u) →
+    Inv V P c w st' ∧ Den P c w e r ∧ UClaim P e r u
+
+theorem th_eq_of_agree {c' : Code} {h : TH} {n : Nat} (hn : h.name = n) (ha : c'.ver h.name = h.ver) : c'.th n = h := by
+  cases h; simp_all [Code.th]
+
+theorem uclaim_call {P : Prog} {w : World} {n : Nat} {va : Val} {e : Expr} {r : Res} {ue : List TH} {h : TH}
+    (hb : P.body h va w = .ret e) (hn : h.name = n) (hU : UClaim P e r ue) :
+    UClaim P (.call n (.lit va)) r (insertTH h ue) := by
+  intro hW c' w' hA
+  have hth : c'.th n = h := th_eq_of_agree hn (hA h (mem_insertTH.2 (.inl rfl)))
+  refine .callRet (.lit va) ?_ (hU hW c' w' fun x hx => hA x (mem_insertTH.2 (.inr hx)))
+  rw [hth, hW h va w' w]; exact hb
+
+theorem uclaim_raise {P : Prog} {w : World} {n : Nat} {va : Val} {x : Nat} {h : TH}
+    (hb : P.body h va w = .raise x) (hn : h.name = n) :
+    UClaim P (.call n (.lit va)) (.err x) (insertTH h []) := by
+  intro hW c' w' hA
+  have hth : c'.th n = h := th_eq_of_agree hn (hA h (mem_insertTH.2 (.inl rfl)))
+  refine .callRaise (.lit va) ?_
+  rw [hth, hW h va w' w]; exact hb
+
+theorem inv_addNode {V P c w st nd} (hI : Inv V P c w st)
+    (hn : ∀ v, nd.res = .ok v → UClaim P (.call nd.key.1.name (.lit nd.key.2)) (.ok v) nd.sub) :
+    Inv V P c w (addNode st nd) := by
+  unfold addNode
+  split
+  · exact hI
+  · refine ⟨hI.evals, ?_, hI.cse⟩
+    intro nd' hm
+    rcases List.mem_cons.1 hm with rfl | hm
+    · exact hn
+    · exact hI.nodes nd' hm
+
+/-- end of a job: the node and the CSE entry it leaves are sound -/
+theorem finishJob_sound {V : Variant} {P c w st} {k : Key} {r : Res} {ue : List TH} (hC : V.cseSubtreeFromDb = true)
+    (hI : Inv V P c w st) (hk : k.1 = c.th k.1.name) (hD : Den P c w (.call k.1.name (.lit k.2)) r)
+    (hU : UClaim P (.call k.1.name (.lit k.2)) r (insertTH k.1 ue)) :
+    Inv V P c w (finishJob V st k r ue).1 := by
+  unfold finishJob
+  have h1 : Inv V P c w (addNode st ⟨k, r, insertTH k.1 ue⟩) :=
+    inv_addNode hI (by intro v hv; simp only at hv; subst hv; exact hU)
+  refine ⟨h1.evals, h1.nodes, ?_⟩
+  intro k' r' sub hm
+  rcases List.mem_cons.1 hm with heq | hm
+  · simp only [cseSub, hC, if_true, Prod.mk.injEq] at heq
+    obtain ⟨rfl, rfl, rfl⟩ := heq
+    exact ⟨hk, hD, hU⟩
+  · exact h1.cse k' r' sub hm
+
+theorem finishJob_eq {V : Variant} {st : St} {k : Key} {r : Res} {ue : List TH} {st' r' u'}
+    (h : finishJob V st k r ue = (st', r', u')) :
+    st' = (finishJob V st k r ue).1 ∧ r' = r ∧ u' = insertTH k.1 ue := by
+  refine ⟨by rw [h], ?_, ?_⟩
+  · have := congrArg (fun x => x.2.1) h; simpa [finishJob] using this.symm
+  · have := congrArg (fun x => x.2.2) h; simpa [finishJob] using this.symm
+
+theorem cf_of_body {V : Variant} {P : Prog} (hK : CFP V P) {h a w e} (hb : P.body h a w = .ret e) : CF V e := by
+  rcases hK with hK | hK
+  · exact .inl hK
+  · exact .inr (hK h a w e hb)
+
+theorem th_name (c : Code) (n : Nat) : (c.th n).name = n := rfl
+
+/-- cache miss: the task function runs -/
+theorem runBody_sound {V : Variant} {P c w ev st} {nm : Nat} {va : Val} {st' r u}
+    (hC : V.cseSubtreeFromDb = true) (hB : BodyOk V P) (hK : CFP V P) (hev : EvOk V P c w ev)
+    (hI : Inv V P c w st) (h : runBody V P w ev st (c.th nm, va) = some (st', r, u)) :
+    Inv V P c w st' ∧ Den P c w (.call nm (.lit va)) r ∧ UClaim P (.call nm (.lit va)) r u := by
+  unfold runBody at h
+  dsimp only at h
+  have hI0 : Inv V P c w { st with log := st.log ++ [(c.th nm, va)] } := ⟨hI.evals, hI.nodes, hI.cse⟩
+  split at h
+  · next cl hb =>
+    simp only [Option.some.injEq] at h
+    have hD : Den P c w (.call nm (.lit va)) (.err cl) := .callRaise (.lit va) hb
+    have hU : UClaim P (.call nm (.lit va)) (.err cl) (insertTH (c.th nm) []) := uclaim_raise hb rfl
+    have := finishJob_sound (V := V) (k := (c.th nm, va)) (ue := []) hC hI0 rfl hD hU
+    obtain ⟨rfl, rfl, rfl⟩ := finishJob_eq h
+    exact ⟨this, hD, hU⟩
+  · next e hb =>
+    split at h
+    · cases h
+    · next st2 r2 ue hev2 =>
+      simp only [Option.some.injEq] at h
+      have hI1 : Inv V P c w { st with log := st.log ++ [(c.th nm, va)], evals := ((c.th nm, va), e) :: st.evals } := by
+        refine ⟨?_, hI.nodes, hI.cse⟩
+        intro k e' hm w' hv
+        rcases List.mem_cons.1 hm with heq | hm
+        · cases heq; exact hB _ _ _ _ _ hb hv
+        · exact hI.evals k e' hm w' hv
+      obtain ⟨hI2, hD2, hU2⟩ := hev _ _ _ _ _ hI1 (cf_of_body hK hb) hev2
+      have hD : Den P c w (.call nm (.lit va)) r2 := .callRet (.lit va) hb hD2
+      have hU : UClaim P (.call nm (.lit va)) r2 (insertTH (c.th nm) ue) := uclaim_call hb rfl hU2
+      have := finishJob_sound (V := V) (k := (c.th nm, va)) (ue := ue) hC hI2 rfl hD hU
+      obtain ⟨rfl, rfl, rfl⟩ := finishJob_eq h
+      exact ⟨this, hD, hU⟩
+
+theorem findNode_some {c : Code} {k : Key} {nodes : List Node} {nd : Node} (h : findNode c k nodes = some nd) :
+    nd ∈ nodes ∧ nd.key = k ∧ Agree c nd.sub := by
+  unfold findNode at h
+  have h1 := List.mem_of_find?_eq_some h
+  have h2 := List.find?_some h
+  simp only [Bool.and_eq_true, decide_eq_true_eq] at h2
+  exact ⟨h1, h2.1, current_iff.1 h2.2⟩
+
+/-- one job, from the cache lookup to its end -/
+theorem jobStep_sound {V : Variant} {P c w ev st} {nm : Nat} {va : Val} {st' r u}
+    (hC : V.cseSubtreeFromDb = true) (hB : BodyOk V P) (hK : CFP V P)
+    (hF : WorldFree P ∨ ∀ n, c.shallow n = false) (hev : EvOk V P c w ev)
+    (hI : Inv V P c w st) (h : jobStep V P c w ev st nm va = some (st', r, u)) :
+    Inv V P c w st' ∧ Den P c w (.call nm (.lit va)) r ∧ UClaim P (.call nm (.lit va)) r u := by
+  unfold jobStep at h
+  simp only at h
+  split at h
+  · -- CSE hit
+    next r0 sub hl =>
+    obtain ⟨hk, hD, hU⟩ := hI.cse _ _ _ (lookup_mem hl)
+    split at h
+    · simp only [Option.some.injEq, Prod.mk.injEq] at h
+      obtain ⟨rfl, rfl, rfl⟩ := h
+      exact ⟨hI, hD, hU⟩
+    · simp only [Option.some.injEq, Prod.mk.injEq] at h
+      obtain ⟨rfl, rfl, rfl⟩ := h
+      refine ⟨inv_addNode hI ?_, hD, hU⟩
+      intro v hv; simp at hv
+  · split at h
+    · -- a current call node was found (only looked for when the task is shallow)
+      next nd hf =>
+      split at hf
+      · next hsh =>
+        have hW : WorldFree P := by
+          rcases hF with hF | hF
+          · exact hF
+          · rw [hF nm] at hsh; cases hsh
+        obtain ⟨hm, hkey, hag⟩ := findNode_some hf
+        split at h
+        · next v hres =>
+          split at h
+          · simp only [Option.some.injEq, Prod.mk.injEq] at h
+            obtain ⟨rfl, rfl, rfl⟩ := h
+            have hU := hI.nodes nd hm v hres
+            rw [hkey] at hU
+            have hD : Den P c w (.call nm (.lit va)) (.ok v) := hU hW c w hag
+            refine ⟨⟨hI.evals, hI.nodes, ?_⟩, hD, hU⟩
+            intro k' r' sub' hm'
+            rcases List.mem_cons.1 hm' with heq | hm'
+            · simp only [Prod.mk.injEq] at heq
+              obtain ⟨rfl, rfl, rfl⟩ := heq
+              exact ⟨rfl, hD, hU⟩
+            · exact hI.cse k' r' sub' hm'
+          · exact runBody_sound hC hB hK hev hI h
+        · exact runBody_sound hC hB hK hev hI h
+      · cases hf
+    · -- no call node: single reduction
+      split at h
+      · next e hl =>
+        split at h
+        · next hv =>
+          have hb : P.body (c.th nm) va w = .ret e := hI.evals _ _ (lookup_mem hl) w hv
+          split at h
+          · cases h
+          · next st2 r2 ue hev2 =>
+            simp only [Option.some.injEq] at h
+            obtain ⟨hI2, hD2, hU2⟩ := hev _ _ _ _ _ hI (cf_of_body hK hb) hev2
+            have hD : Den P c w (.call nm (.lit va)) r2 := .callRet (.lit va) hb hD2
+            have hU : UClaim P (.call nm (.lit va)) r2 (insertTH (c.th nm) ue) := uclaim_call hb rfl hU2
+            have := finishJob_sound (V := V) (k := (c.th nm, va)) (ue := ue) hC hI2 rfl hD hU
+            obtain ⟨rfl, rfl, rfl⟩ := finishJob_eq h
+            exact ⟨this, hD, hU⟩
+        · exact runBody_sound hC hB hK hev hI h
+      · exact runBody_sound hC hB hK hev hI h
+
+theorem agree_union {c : Code} {a b : List TH} (h : Agree c (unionTH a b)) : Agree c a ∧ Agree c b :=
+  ⟨fun x hx => h x (mem_unionTH.2 (.inl hx)), fun x hx => h x (mem_unionTH.2 (.inr hx))⟩
+
+theorem cf_add {V a b} (h : CF V (.add a b)) : CF V a ∧ CF V b := by
+  rcases h with h | h
+  · exact ⟨.inl h, .inl h⟩
+  · exact ⟨.inr h.1, .inr h.2⟩
+
+theorem cf_call {V n a} (h : CF V (.call n a)) : CF V a := by
+  rcases h with h | h
+  · exact .inl h
+  · exact .inr h
+
+theorem cf_catch {V e cls rc} (h : CF V (.catch e cls rc)) : V.noCatchCache = true := by
+  rcases h with h | h
+  · exact h
+  · exact h.elim
+
+/-- **Every evaluation step preserves `CacheSound` and computes the denotation** (for the repaired variant;
+`catch` either without its private cache or absent from the program). -/
+theorem eval_sound {V : Variant} {P : Prog} {c : Code} {w : World}
+    (hC : V.cseSubtreeFromDb = true) (hB : BodyOk V P) (hK : CFP V P)
+    (hF : WorldFree P ∨ ∀ n, c.shallow n = false) : ∀ n, EvOk V P c w (eval V P c w n) := by
+  intro n
+  induction n with
+  | zero => intro st e st' r u _ _ h; simp [eval] at h
+  | succ n ih =>
+    intro st e st' r u hI hcf h
+    cases e with
+    | lit v =>
+      simp only [eval, Option.some.injEq, Prod.mk.injEq] at h
+      obtain ⟨rfl, rfl, rfl⟩ := h
+      exact ⟨hI, .lit v, fun _ _ _ _ => .lit v⟩
+    | add a b =>
+      obtain ⟨hca, hcb⟩ := cf_add hcf
+      simp only [eval] at h
+      split at h
+      · cases h
+      · next st1 x u1 ha =>
+        simp only [Option.some.injEq, Prod.mk.injEq] at h
+        obtain ⟨rfl, rfl, rfl⟩ := h
+        obtain ⟨hI1, hD1, hU1⟩ := ih _ _ _ _ _ hI hca ha
+        exact ⟨hI1, .addErrL hD1, fun hW c' w' hA => .addErrL (hU1 hW c' w' hA)⟩
+      · next st1 va u1 ha =>
+        obtain ⟨hI1, hD1, hU1⟩ := ih _ _ _ _ _ hI hca ha
+        split at h
+        · cases h
+        · next st2 x u2 hb =>
+          simp only [Option.some.injEq, Prod.mk.injEq] at h
+          obtain ⟨rfl, rfl, rfl⟩ := h
+          obtain ⟨hI2, hD2, hU2⟩ := ih _ _ _ _ _ hI1 hcb hb
+          exact ⟨hI2, .addErrR hD1 hD2, fun hW c' w' hA =>
+            .addErrR (hU1 hW c' w' (agree_union hA).1) (hU2 hW c' w' (agree_union hA).2)⟩
+        · next st2 vb u2 hb =>
+          simp only [Option.some.injEq, Prod.mk.injEq] at h
+          obtain ⟨rfl, rfl, rfl⟩ := h
+          obtain ⟨hI2, hD2, hU2⟩ := ih _ _ _ _ _ hI1 hcb hb
+          exact ⟨hI2, .addOk hD1 hD2, fun hW c' w' hA =>
+            .addOk (hU1 hW c' w' (agree_union hA).1) (hU2 hW c' w' (agree_union hA).2)⟩
+    | call nm a =>
+      have hca := cf_call hcf
+      simp only [eval] at h
+      split at h
+      · cases h
+      · next st1 x u1 ha =>
+        simp only [Option.some.injEq, Prod.mk.injEq] at h
+        obtain ⟨rfl, rfl, rfl⟩ := h
+        obtain ⟨hI1, hD1, hU1⟩ := ih _ _ _ _ _ hI hca ha
+        exact ⟨hI1, .callArgErr hD1, fun hW c' w' hA => .callArgErr (hU1 hW c' w' hA)⟩
+      · next st1 va u1 ha =>
+        obtain ⟨hI1, hD1, hU1⟩ := ih _ _ _ _ _ hI hca ha
+        split at h
+        · cases h
+        · next st2 r2 u2 hj =>
+          simp only [Option.some.injEq, Prod.mk.injEq] at h
+          obtain ⟨rfl, rfl, rfl⟩ := h
+          obtain ⟨hI2, hD2, hU2⟩ := jobStep_sound hC hB hK hF ih hI1 hj
+          exact ⟨hI2, den_call_lit hD1 hD2, fun hW c' w' hA =>
+            den_call_lit (hU1 hW c' w' (agree_union hA).1) (hU2 hW c' w' (agree_union hA).2)⟩
+    | «catch» e cls rc =>
+      have hN := cf_catch hcf
+      have hce : CF V e := .inl hN
+      have hcr : CF V (.call rc.name (.lit (.exc cls))) := .inl hN
+      simp only [eval, hN, if_true] at h
+      split at h
+      · cases h
+      · next st1 v u1 he =>
+        simp only [Option.some.injEq, Prod.mk.injEq] at h
+        obtain ⟨rfl, rfl, rfl⟩ := h
+        obtain ⟨hI1, hD1, hU1⟩ := ih _ _ _ _ _ hI hce he
+        exact ⟨⟨hI1.evals, hI1.nodes, hI1.cse⟩, .catchOk hD1, fun hW c' w' hA => .catchOk (hU1 hW c' w' hA)⟩
+      · next st1 x u1 he =>
+        obtain ⟨hI1, hD1, hU1⟩ := ih _ _ _ _ _ hI hce he
+        split at h
+        · next hx =>
+          subst hx
+          split at h
+          · cases h
+          · next st2 v u2 hr =>
+            simp only [Option.some.injEq, Prod.mk.injEq] at h
+            obtain ⟨rfl, rfl, rfl⟩ := h
+            obtain ⟨hI2, hD2, hU2⟩ := ih _ _ _ _ _ hI1 hcr hr
+            exact ⟨⟨hI2.evals, hI2.nodes, hI2.cse⟩, .catchRec hD1 hD2, fun hW c' w' hA =>
+              .catchRec (hU1 hW c' w' (agree_union hA).1) (hU2 hW c' w' (agree_union hA).2)⟩
+          · next st2 y u2 hr =>
+            simp only [Option.some.injEq, Prod.mk.injEq] at h
+            obtain ⟨rfl, rfl, rfl⟩ := h
+            obtain ⟨hI2, hD2, hU2⟩ := ih _ _ _ _ _ hI1 hcr hr
+            exact ⟨hI2, .catchRec hD1 hD2, fun hW c' w' hA =>
+              .catchRec (hU1 hW c' w' (agree_union hA).1) (hU2 hW c' w' (agree_union hA).2)⟩
+        · next hx =>
+          simp only [Option.some.injEq, Prod.mk.injEq] at h
+          obtain ⟨rfl, rfl, rfl⟩ := h
+          exact ⟨hI1, .catchOther hD1 hx, fun hW c' w' hA => .catchOther (hU1 hW c' w' hA) hx⟩
+
+/-! ### the template programs satisfy the hypotheses -/
+
+/-- an int literal produced by a template does not depend on the world -/
+theorem inst_int {a : Val} {w w' : World} : ∀ {t : Tm} {x : Int}, inst a w t = .lit (.int x) → inst a w' t = .lit (.int x)
+  | .arg, _, h => h
+  | .numarg, _, h => h
+  | .lit _, _, h => h
+  | .file _, _, h => by simp [inst] at h
+  | .call _ _, _, h => by simp [inst] at h
+  | .catch _ _ _, _, h => by simp [inst] at h
+  | .add s t, x, h => by
+    simp only [inst] at h ⊢
+    split at h
+    · next x1 y1 hs ht => rw [inst_int hs, inst_int ht]; exact h
+    · cases h
+
+def TmCatchFree : Tm → Prop
+  | .add a b => TmCatchFree a ∧ TmCatchFree b
+  | .call _ t => TmCatchFree t
+  | .catch _ _ _ => False
+  | _ => True
+
+def SpecOk (p : Tm → Prop) : Spec → Prop
+  | .ret t => p t
+  | .raise _ => True
+
+theorem inst_valid {V : Variant} (hS : V.simpleExprValid = true) {a : Val} {w w' : World} :
+    ∀ {t : Tm}, TmCatchFree t → validE V w' (inst a w t) = true → inst a w' t = inst a w t
+  | .arg, _, _ => rfl
+  | .numarg, _, _ => rfl
+  | .lit _, _, _ => rfl
+  | .file p, _, h => by
+    simp only [inst, validE, validV, beq_iff_eq] at h ⊢
+    rw [h]
+  | .call n t, hc, h => by
+    simp only [inst, validE] at h ⊢
+    rw [inst_valid hS (t := t) hc h]
+  | .catch _ _ _, hc, _ => hc.elim
+  | .add s t, hc, h => by
+    simp only [inst] at h ⊢
+    split at h
+    · next x y hs ht => rw [inst_int hs, inst_int ht]
+    · next hne =>
+      simp only [validE, hS, if_true, Bool.and_eq_true] at h
+      rw [inst_valid hS hc.1 h.1, inst_valid hS hc.2 h.2]
+      split
+      · next x y hs ht => exact (hne x y hs ht).elim
+      · rfl
+
+/-- catch-free template programs: what a body observed of the world (file stamps) is visible to `is_valid` -/
+theorem tableProg_bodyOk {V : Variant} (hS : V.simpleExprValid = true) (tbl : List (TH × Spec))
+    (hcf : ∀ x ∈ tbl, SpecOk TmCatchFree x.2) : BodyOk V (tableProg tbl) := by
+  intro h a w w' e hb hv
+  simp only [tableProg] at hb ⊢
+  split at hb
+  · next t hl =>
+    simp only [Out.ret.injEq] at hb
+    subst hb
+    rw [inst_valid hS (hcf _ (lookup_mem hl)) hv]
+  · cases hb
+  · cases hb
+
+def TmFileFree : Tm → Prop
+  | .add a b => TmFileFree a ∧ TmFileFree b
+  | .call _ t => TmFileFree t
+  | .catch _ _ _ => False
+  | .file _ => False
+  | _ => True
+
+theorem inst_catchFree {a : Val} {w : World} : ∀ {t : Tm}, TmCatchFree t → CatchFree (inst a w t)
+  | .arg, _ => trivial
+  | .numarg, _ => trivial
+  | .lit _, _ => trivial
+  | .file _, _ => trivial
+  | .call _ t, h => inst_catchFree (t := t) h
+  | .catch _ _ _, h => h.elim
+  | .add s t, h => by
+    simp only [inst]
+    split
+    · trivial
+    · exact ⟨inst_catchFree h.1, inst_catchFree h.2⟩
+
+theorem inst_worldFree {a : Val} {w w' : World} : ∀ {t : Tm}, TmFileFree t → inst a w t = inst a w' t
+  | .arg, _ => rfl
+  | .numarg, _ => rfl
+  | .lit _, _ => rfl
+  | .file _, h => h.elim
+  | .call n t, h => by simp only [inst]; rw [inst_worldFree (t := t) h]
+  | .catch _ _ _, h => h.elim
+  | .add s t, h => by simp only [inst]; rw [inst_worldFree h.1, inst_worldFree h.2]
+
+theorem tableProg_cfp (V : Variant) (tbl : List (TH × Spec)) (h : ∀ x ∈ tbl, SpecOk TmCatchFree x.2) :
+    CFP V (tableProg tbl) := by
+  refine .inr ?_
+  intro th a w e hb
+  simp only [tableProg] at hb
+  split at hb
+  · next t hl =>
+    simp only [Out.ret.injEq] at hb
+    subst hb
+    exact inst_catchFree (h _ (lookup_mem hl))
+  · cases hb
+  · cases hb
+
+theorem tableProg_worldFree (tbl : List (TH × Spec)) (h : ∀ x ∈ tbl, SpecOk TmFileFree x.2) :
+    WorldFree (tableProg tbl) := by
+  intro th a w w'
+  simp only [tableProg]
+  split
+  · next t hl => rw [inst_worldFree (h _ (lookup_mem hl))]
+  · rfl
+  · rfl
+
 end RedunModel.CacheHist
